@@ -60,7 +60,7 @@ pub fn diamond_files() -> Vec<F> {
             ("disk: star-imports c", "from c import *\n"),
             ("star-imports c, defines bx", "import pytest\nfrom c import *\n\n@pytest.fixture\ndef bx():\n    return 1\n"),
         ] },
-        F { rel: "c.py", initially_scanned: true, versions: vec![("disk: star-imports d", "from d import *\n")] },
+        F { rel: "c.py", initially_scanned: true, versions: vec![("disk: star-imports d", "from d import *\n"), ("imports nothing any more (defines no fixture before or after)", "import os\n")] },
         F { rel: "d.py", initially_scanned: true, versions: vec![
             ("disk: defines deep", "import pytest\n\n@pytest.fixture\ndef deep():\n    return 1\n"),
             ("defines deep and deeper", "import pytest\n\n@pytest.fixture\ndef deep():\n    return 1\n\n@pytest.fixture\ndef deeper():\n    return 2\n"),
@@ -71,6 +71,42 @@ pub fn diamond_files() -> Vec<F> {
 }
 
 const NQ_DIAMOND: u8 = 6;
+
+/// Third workspace: an import cycle (closed by a star import or by pytest_plugins, per version) with
+/// two entry points, one member of the cycle having imports of its own that its partner gets from
+/// nowhere else.
+pub fn cycle_files() -> Vec<F> {
+    vec![
+        F { rel: "app_a/conftest.py", initially_scanned: true, versions: vec![("disk: pytest_plugins db", "pytest_plugins = [\"db\"]\n"), ("star-imports db", "from db import *\n")] },
+        F { rel: "app_b/conftest.py", initially_scanned: true, versions: vec![("disk: pytest_plugins cache", "pytest_plugins = [\"cache\"]\n"), ("star-imports cache", "from cache import *\n"), ("imports nothing any more", "import os\n")] },
+        F { rel: "db.py", initially_scanned: true, versions: vec![
+            ("disk: star-imports helpers, pytest_plugins cache, defines db_conn", "import pytest\nfrom helpers import *\n\npytest_plugins = [\"cache\"]\n\n@pytest.fixture\ndef db_conn():\n    return 1\n"),
+            ("star-imports helpers and cache, defines db_conn", "import pytest\nfrom helpers import *\nfrom cache import *\n\n@pytest.fixture\ndef db_conn():\n    return 1\n"),
+        ] },
+        F { rel: "cache.py", initially_scanned: true, versions: vec![
+            ("disk: pytest_plugins db, defines cache_client", "import pytest\n\npytest_plugins = [\"db\"]\n\n@pytest.fixture\ndef cache_client():\n    return 1\n"),
+            ("star-imports db, defines cache_client", "import pytest\nfrom db import *\n\n@pytest.fixture\ndef cache_client():\n    return 1\n"),
+        ] },
+        F { rel: "helpers.py", initially_scanned: true, versions: vec![("disk: defines helper_fixture", "import pytest\n\n@pytest.fixture\ndef helper_fixture():\n    return 1\n")] },
+        F { rel: "app_a/test_a.py", initially_scanned: true, versions: vec![("disk: uses helper_fixture", "def test_a(helper_fixture, cache_client):\n    pass\n")] },
+        F { rel: "app_b/test_b.py", initially_scanned: true, versions: vec![("disk: uses helper_fixture", "def test_b(helper_fixture, db_conn):\n    pass\n")] },
+    ]
+}
+
+const NQ_CYCLE: u8 = 5;
+
+fn run_query_cycle(db: &FixtureDatabase, root: &Path, q: u8) -> String {
+    let p = |r: &str| root.join(r);
+    let root_s = root.to_string_lossy().to_string();
+    let keys = |v: Vec<pytest_language_server::FixtureDefinition>| v.iter().map(|d| def_key(d, &root_s)).collect::<Vec<_>>();
+    match q {
+        0 => format!("available(app_a/test_a.py) = {:?}", keys(db.get_available_fixtures(&p("app_a/test_a.py")))),
+        1 => format!("available(app_b/test_b.py) = {:?}", keys(db.get_available_fixtures(&p("app_b/test_b.py")))),
+        2 => format!("goto(helper_fixture@app_a) = {:?}, goto(cache_client@app_a) = {:?}", db.find_fixture_definition(&p("app_a/test_a.py"), 0, 11).map(|d| def_key(&d, &root_s)), db.find_fixture_definition(&p("app_a/test_a.py"), 0, 27).map(|d| def_key(&d, &root_s))),
+        3 => format!("goto(helper_fixture@app_b) = {:?}, goto(db_conn@app_b) = {:?}", db.find_fixture_definition(&p("app_b/test_b.py"), 0, 11).map(|d| def_key(&d, &root_s)), db.find_fixture_definition(&p("app_b/test_b.py"), 0, 27).map(|d| def_key(&d, &root_s))),
+        _ => format!("imported(helper_fixture in db.py) = {}, imported(helper_fixture in cache.py) = {}, imported(cache_client in db.py) = {}", db.is_fixture_imported_in_file("helper_fixture", &p("db.py")), db.is_fixture_imported_in_file("helper_fixture", &p("cache.py")), db.is_fixture_imported_in_file("cache_client", &p("db.py"))),
+    }
+}
 
 fn run_query_diamond(db: &FixtureDatabase, root: &Path, q: u8) -> String {
     let p = |r: &str| root.join(r);
@@ -445,6 +481,7 @@ pub fn run(rep: &'static Report) {
     let depth: u8 = if thorough { 4 } else { 3 };
     let (v1, model) = explore(rep, files(), depth, NQ, run_query);
     let (v2, _m2) = explore(rep, diamond_files(), depth, NQ_DIAMOND, run_query_diamond);
+    let (v3, _m3) = explore(rep, cycle_files(), depth, NQ_CYCLE, run_query_cycle);
     // on a helper thread with a deadline: an analysis that never returns once the cache limit is
     // crossed must end this check with a verdict, not stall it (termination itself is C12's subject)
     let (tx, rx) = std::sync::mpsc::channel();
@@ -458,7 +495,7 @@ pub fn run(rep: &'static Report) {
             json!({"timeout": true})
         }
     };
-    let sum = |k: &str| v1[k].as_u64().unwrap_or(0) + v2[k].as_u64().unwrap_or(0);
+    let sum = |k: &str| v1[k].as_u64().unwrap_or(0) + v2[k].as_u64().unwrap_or(0) + v3[k].as_u64().unwrap_or(0);
     rep.set("states", sum("states"));
     rep.set("generated_states", sum("generated_states"));
     rep.set("max_depth", v1["max_depth"].clone());
@@ -468,10 +505,10 @@ pub fn run(rep: &'static Report) {
     rep.set("distinct_nontrivial", sum("states"));
     rep.set("traces_validated_against_impl", t);
     rep.set("eviction_conformance", ev);
-    rep.set("models", json!([v1, v2]));
+    rep.set("models", json!([v1, v2, v3]));
     rep.set("exhaustive", true);
     rep.sample(json!({"history": model.hist_json(&[Act::Query(0), Act::Change(0, 1), Act::Query(0)])}));
-    rep.set("rule", "explicit-state BFS (stateright) over all histories up to the stated depth of: didOpen/didChange with each version of each file (incl. an edit that removes a conftest's last definition, one that only changes its import line, one adding a fixture, a helper edit; helper modules import each other), the scan worker reaching a not-yet-analysed conftest through the no-cleanup path, didClose of an unmodified document (= eviction of that path, bound by the eviction conformance test), and 7 query kinds (available fixtures of 2 files, cycles, imported-fixture lookups across the mutually importing modules, go-to-definition through the import branch, references of every definition, resolution + unused list); state = file versions + closed flags + fingerprint of every cache's contents and freshness + depth, carrying the real warm FixtureDatabase; after EVERY transition all 7 queries are evaluated on a copy of the warm database and on a cold twin that received only the analyses, and must agree. A second model does the same over a workspace in which two nested conftest.py files reach one module through different star-import routes (diamond over a chain two modules deep; 6 query kinds asked from below either conftest)");
+    rep.set("rule", "explicit-state BFS (stateright) over all histories up to the stated depth of: didOpen/didChange with each version of each file (incl. an edit that removes a conftest's last definition, one that only changes its import line, one adding a fixture, a helper edit; helper modules import each other), the scan worker reaching a not-yet-analysed conftest through the no-cleanup path, didClose of an unmodified document (= eviction of that path, bound by the eviction conformance test), and 7 query kinds (available fixtures of 2 files, cycles, imported-fixture lookups across the mutually importing modules, go-to-definition through the import branch, references of every definition, resolution + unused list); state = file versions + closed flags + fingerprint of every cache's contents and freshness + depth, carrying the real warm FixtureDatabase; after EVERY transition all 7 queries are evaluated on a copy of the warm database and on a cold twin that received only the analyses, and must agree. A second model does the same over a workspace in which two nested conftest.py files reach one module through different star-import routes (diamond over a chain two modules deep; 6 query kinds asked from below either conftest), and a third one over an import cycle with two entry points whose closing edges are star imports or pytest_plugins declarations depending on the file version");
     rep.assume("closing is only offered for documents whose buffer equals the on-disk content (the statement's 'unmodified document'); eviction of a set of paths has the effect of closing each of them (checked once per run by really crossing MAX_FILE_CACHE_SIZE)");
 }
 
